@@ -295,6 +295,9 @@ func TestPolicy(t *testing.T) {
 					p.Status = l.Status
 				}
 			}
+			if methodAbsent {
+				p.Method = "" // (whatever a later "method" variation chose for the publisher's object)
+			}
 			p.Date, p.Expires = l.Date, l.Expires
 			for _, h := range l.ReqHeaders {
 				p.ReqHeaderNames = append(p.ReqHeaderNames, h.Name)
@@ -405,7 +408,7 @@ func TestPolicy(t *testing.T) {
 				if overflowEdit != "" {
 					want, why = false, "signature parameter not a representable integer"
 				}
-				for j, e := range objs {
+				for _, e := range objs {
 					v := verify(c, e, tm, net)
 					if v.pi != nil {
 						c.CheckTotal("Exchange.Verify", len(l.File), v.pi, v.alloc)
@@ -413,7 +416,10 @@ func TestPolicy(t *testing.T) {
 					if !c.Oracle("C09") {
 						continue
 					}
-					stage := []string{"before", "after"}[j] + " the write/read round trip"
+					stage := "after the write/read round trip"
+					if e == pub {
+						stage = "before the write/read round trip"
+					}
 					if v.ok && !want {
 						c.Violation("accepted-violating-exchange", why, "Verify accepted (%s) an exchange violating: %s; t=%d.%09d window [%d,%d] variations %v", stage, why, tm.Unix(), tm.Nanosecond(), l.Date, l.Expires, kinds)
 					}
